@@ -5,7 +5,11 @@
 //! * `mode`: `v` = empty `Canonical::reference` + one `modify_vote` per delegate; `f` = the delegates' tips
 //!   are written as `refs/namespaces/<did>/refs/heads/master` and read back by `Canonical::reference`.
 //! * `parents`: per commit `r` (root) or `i+j` (earlier commits); `salt` varies the commit messages and
-//!   hence the oid order (which the `BTreeMap<Oid, _>` folds of the code follow).
+//!   hence the oid order (which the `BTreeMap<Oid, _>` folds of the code follow). In corpus files (and inside
+//!   the generator) the salt may be written `o<i><<j><…`: "the first salt for which the oids of commits
+//!   i, j, … sort in this order"; the harness resolves it and records the numeric salt. The oid order of
+//!   the sufficiently supported tips is a generated dimension: whenever they are not a chain, every
+//!   relative order of them (all 2 / 6 / 24; 24 sampled beyond four tips) is produced this way.
 //! * `ord`, `le`, `rel`: the opaque git facts, computed by the real libgit2 on the real graph: rank of
 //!   each commit in oid order; `le[i][j]` = `merge_base(i, j) == i` (cross-checked against
 //!   `graph_descendant_of`); `rel[i][j]` = `merge_base(i, j)` succeeds. In corpus files they may be
@@ -27,18 +31,36 @@ use radicle::storage::git::Repository;
 use radicle::test::fixtures;
 use verif_common::*;
 
-struct Graph {
+/// One real repository per DAG shape; it holds every salted variant of the shape (same ancestry, other
+/// commit messages, hence other oids and another oid order).
+struct Shape {
     _tmp: tempfile::TempDir,
     repo: Repository,
-    oids: Vec<git::raw::Oid>,
-    ord: String,
+    parents: Vec<Vec<usize>>,
+    text: String,
     le: String,
     rel: String,
     lem: Vec<Vec<bool>>,
+    salts: RefCell<HashMap<u64, std::rc::Rc<Salted>>>,
+}
+
+struct Salted {
+    oids: Vec<git::raw::Oid>,
+    /// rank of each commit in oid order
+    rank: Vec<u64>,
+    verified: std::cell::Cell<bool>,
+}
+
+/// A shape together with one salted variant.
+struct Graph {
+    shape: std::rc::Rc<Shape>,
+    oids: Vec<git::raw::Oid>,
+    ord: String,
 }
 
 thread_local! {
-    static GRAPHS: RefCell<HashMap<(String, u64), std::rc::Rc<Graph>>> = RefCell::new(HashMap::new());
+    static SHAPES: RefCell<HashMap<String, std::rc::Rc<Shape>>> = RefCell::new(HashMap::new());
+    static SALT_FOR_ORDER: RefCell<HashMap<(String, Vec<usize>), Option<u64>>> = RefCell::new(HashMap::new());
 }
 
 fn parse_parents(s: &str) -> Option<Vec<Vec<usize>>> {
@@ -75,15 +97,26 @@ fn bits(m: &[Vec<bool>]) -> String {
         .join(",")
 }
 
-fn graph(parents_txt: &str, salt: u64) -> Option<std::rc::Rc<Graph>> {
-    let key = (parents_txt.to_string(), salt);
-    if let Some(g) = GRAPHS.with(|c| c.borrow().get(&key).cloned()) {
-        return Some(g);
+fn facts(raw: &git::raw::Repository, oids: &[git::raw::Oid], what: &str) -> (Vec<Vec<bool>>, Vec<Vec<bool>>) {
+    let n = oids.len();
+    let mut lem = vec![vec![false; n]; n];
+    let mut relm = vec![vec![false; n]; n];
+    for i in 0..n {
+        for j in 0..n {
+            let mb = raw.merge_base(oids[i], oids[j]);
+            relm[i][j] = mb.is_ok();
+            lem[i][j] = matches!(mb, Ok(b) if b == oids[i]);
+            // cross-check the assumed reading of merge_base against git's own ancestry test
+            let anc = i == j || raw.graph_descendant_of(oids[j], oids[i]).unwrap_or(false);
+            if anc != lem[i][j] {
+                panic!("harness: merge_base and graph_descendant_of disagree on {what} ({i},{j})");
+            }
+        }
     }
-    let parents = parse_parents(parents_txt)?;
-    let tmp = tempfile::tempdir().ok()?;
-    let rid = RepoId::from(git::raw::Oid::from_bytes(&[7u8; 20]).ok()?);
-    let repo = Repository::create(tmp.path().join("repo"), rid, &fixtures::user()).ok()?;
+    (lem, relm)
+}
+
+fn make_commits(repo: &Repository, parents: &[Vec<usize>], salt: u64) -> Option<Vec<git::raw::Oid>> {
     let raw = &repo.backend;
     let sig = git::raw::Signature::new("anonymous", "anonymous@radicle.xyz", &git::raw::Time::new(1514817556, 0)).ok()?;
     let tree = {
@@ -97,35 +130,99 @@ fn graph(parents_txt: &str, salt: u64) -> Option<std::rc::Rc<Graph>> {
         let oid = raw.commit(None, &sig, &sig, &format!("c{i} salt {salt}"), &tree, &prefs).ok()?;
         oids.push(oid);
     }
-    let n = oids.len();
-    // rank in oid order
-    let mut sorted: Vec<git::raw::Oid> = oids.clone();
-    sorted.sort();
-    let ord: Vec<u64> = oids.iter().map(|o| sorted.iter().position(|s| s == o).unwrap() as u64).collect();
-    let mut lem = vec![vec![false; n]; n];
-    let mut relm = vec![vec![false; n]; n];
-    for i in 0..n {
-        for j in 0..n {
-            let mb = raw.merge_base(oids[i], oids[j]);
-            relm[i][j] = mb.is_ok();
-            lem[i][j] = matches!(mb, Ok(b) if b == oids[i]);
-            // cross-check the assumed reading of merge_base against git's own ancestry test
-            let anc = i == j || raw.graph_descendant_of(oids[j], oids[i]).unwrap_or(false);
-            if anc != lem[i][j] {
-                panic!("harness: merge_base and graph_descendant_of disagree on {parents_txt} ({i},{j})");
+    Some(oids)
+}
+
+fn shape(parents_txt: &str) -> Option<std::rc::Rc<Shape>> {
+    if let Some(s) = SHAPES.with(|c| c.borrow().get(parents_txt).cloned()) {
+        return Some(s);
+    }
+    let parents = parse_parents(parents_txt)?;
+    let tmp = tempfile::tempdir().ok()?;
+    let rid = RepoId::from(git::raw::Oid::from_bytes(&[7u8; 20]).ok()?);
+    let repo = Repository::create(tmp.path().join("repo"), rid, &fixtures::user()).ok()?;
+    let oids = make_commits(&repo, &parents, 0)?;
+    let (lem, relm) = facts(&repo.backend, &oids, parents_txt);
+    let s = std::rc::Rc::new(Shape {
+        _tmp: tmp,
+        repo,
+        parents,
+        text: parents_txt.to_string(),
+        le: bits(&lem),
+        rel: bits(&relm),
+        lem,
+        salts: RefCell::new(HashMap::new()),
+    });
+    SHAPES.with(|c| {
+        let mut c = c.borrow_mut();
+        if c.len() > 48 {
+            c.clear();
+        }
+        c.insert(parents_txt.to_string(), s.clone())
+    });
+    Some(s)
+}
+
+fn salted(s: &Shape, salt: u64, verify: bool) -> Option<std::rc::Rc<Salted>> {
+    let got = s.salts.borrow().get(&salt).cloned();
+    let v = match got {
+        Some(v) => v,
+        None => {
+            let oids = make_commits(&s.repo, &s.parents, salt)?;
+            let mut sorted = oids.clone();
+            sorted.sort();
+            let rank: Vec<u64> = oids.iter().map(|o| sorted.iter().position(|x| x == o).unwrap() as u64).collect();
+            let v = std::rc::Rc::new(Salted { oids, rank, verified: std::cell::Cell::new(false) });
+            s.salts.borrow_mut().insert(salt, v.clone());
+            v
+        }
+    };
+    if verify && !v.verified.get() {
+        // the ancestry facts do not depend on the salt: check it on the real commits of this variant
+        let (lem, relm) = facts(&s.repo.backend, &v.oids, &s.text);
+        if bits(&lem) != s.le || bits(&relm) != s.rel {
+            panic!("harness: ancestry of {} differs between salts", s.text);
+        }
+        v.verified.set(true);
+    }
+    Some(v)
+}
+
+fn graph(parents_txt: &str, salt: u64) -> Option<Graph> {
+    let s = shape(parents_txt)?;
+    let v = salted(&s, salt, true)?;
+    Some(Graph { oids: v.oids.clone(), ord: nats(&v.rank), shape: s })
+}
+
+/// The first salt for which the oids of the listed commits sort in the listed order.
+fn find_salt(parents_txt: &str, order: &[usize]) -> Option<u64> {
+    let key = (parents_txt.to_string(), order.to_vec());
+    if let Some(r) = SALT_FOR_ORDER.with(|c| c.borrow().get(&key).cloned()) {
+        return r;
+    }
+    let s = shape(parents_txt)?;
+    let mut found = None;
+    if order.iter().all(|c| *c < s.parents.len()) {
+        for salt in 0..20_000u64 {
+            let v = salted(&s, salt, false)?;
+            if order.windows(2).all(|w| v.rank[w[0]] < v.rank[w[1]]) {
+                found = Some(salt);
+                break;
             }
         }
     }
-    drop(tree);
-    let g = std::rc::Rc::new(Graph { _tmp: tmp, ord: nats(&ord), le: bits(&lem), rel: bits(&relm), lem, repo, oids });
-    GRAPHS.with(|c| {
-        let mut c = c.borrow_mut();
-        if c.len() > 64 {
-            c.clear();
-        }
-        c.insert(key, g.clone())
-    });
-    Some(g)
+    SALT_FOR_ORDER.with(|c| c.borrow_mut().insert(key, found));
+    found
+}
+
+/// Salt token: a number, or `o<i><<j><…` = "the first salt whose oids sort commit i before j before …".
+fn resolve_salt(parents_txt: &str, tok: &str) -> Option<u64> {
+    if let Some(o) = tok.strip_prefix('o') {
+        let order: Vec<usize> = o.split('<').map(|x| x.parse().ok()).collect::<Option<_>>()?;
+        find_salt(parents_txt, &order)
+    } else {
+        tok.parse().ok()
+    }
 }
 
 /// Fill in `?` facts; returns the completed case line.
@@ -134,10 +231,10 @@ fn normalize(input: &str) -> String {
     if f.len() != 8 {
         return input.to_string();
     }
-    let Ok(salt) = f[2].parse::<u64>() else { return input.to_string() };
+    let Some(salt) = resolve_salt(f[1], f[2]) else { return input.to_string() };
     let Some(g) = graph(f[1], salt) else { return input.to_string() };
     let pick = |t: &str, real: &str| if t == "?" { real.to_string() } else { t.to_string() };
-    format!("{} {} {} {} {} {} {} {}", f[0], f[1], f[2], pick(f[3], &g.ord), pick(f[4], &g.le), pick(f[5], &g.rel), f[6], f[7])
+    format!("{} {} {} {} {} {} {} {}", f[0], f[1], salt, pick(f[3], &g.ord), pick(f[4], &g.shape.le), pick(f[5], &g.shape.rel), f[6], f[7])
 }
 
 fn run_case(input: &str) -> Outcome {
@@ -149,7 +246,7 @@ fn run_case(input: &str) -> Outcome {
     let (Ok(salt), Ok(threshold)) = (f[2].parse::<u64>(), f[7].parse::<usize>()) else { return bad() };
     let Some(g) = graph(f[1], salt) else { return bad() };
     let n = g.oids.len();
-    if f[3] != g.ord || f[4] != g.le || f[5] != g.rel {
+    if f[3] != g.ord || f[4] != g.shape.le || f[5] != g.shape.rel {
         return Outcome::new("env-mismatch").trivial().tag("env-mismatch");
     }
     let mut tips: Vec<Option<usize>> = vec![];
@@ -170,7 +267,7 @@ fn run_case(input: &str) -> Outcome {
     let delegates = NonEmpty::from_vec(dids.clone()).unwrap();
     let master = git::RefString::try_from("master").unwrap();
     let refname = git::refs::branch(&master);
-    let raw = &g.repo.backend;
+    let raw = &g.shape.repo.backend;
 
     // --- run the real code -------------------------------------------------------------------
     let res = catch(|| {
@@ -188,7 +285,7 @@ fn run_case(input: &str) -> Outcome {
                     }
                 }
             }
-            let c = Canonical::reference(&g.repo, &refname, &delegates, threshold).unwrap();
+            let c = Canonical::reference(&g.shape.repo, &refname, &delegates, threshold).unwrap();
             // leave no refs behind for the next case on this graph
             for d in dids.iter() {
                 let name = refname.with_namespace(git::Component::from(d.as_key()));
@@ -198,7 +295,7 @@ fn run_case(input: &str) -> Outcome {
             }
             c
         } else {
-            let mut c = Canonical::reference(&g.repo, &refname, &delegates, threshold).unwrap();
+            let mut c = Canonical::reference(&g.shape.repo, &refname, &delegates, threshold).unwrap();
             assert!(c.is_empty());
             for (d, t) in dids.iter().zip(&tips) {
                 if let Some(t) = t {
@@ -274,7 +371,7 @@ fn run_case(input: &str) -> Outcome {
         *m.entry(*t).or_default() += 1;
         m
     });
-    if counts.iter().any(|(c, k)| *k >= 2 && tipset.iter().any(|d| d != c && g.lem[*c][*d])) {
+    if counts.iter().any(|(c, k)| *k >= 2 && tipset.iter().any(|d| d != c && g.shape.lem[*c][*d])) {
         o = o.tag("shared-tip-with-descendant-tip");
     }
     if supported.len() >= 2 && has_max && supported.iter().any(|a| supported.iter().any(|b| !desc(*a, *b) && !desc(*b, *a))) {
@@ -291,6 +388,22 @@ fn run_case(input: &str) -> Outcome {
     }
     o.nontrivial = tipset.len() >= 2;
     o
+}
+
+fn permutations(xs: &[usize]) -> Vec<Vec<usize>> {
+    if xs.len() <= 1 {
+        return vec![xs.to_vec()];
+    }
+    let mut out = vec![];
+    for i in 0..xs.len() {
+        let mut rest = xs.to_vec();
+        let x = rest.remove(i);
+        for mut p in permutations(&rest) {
+            p.insert(0, x);
+            out.push(p);
+        }
+    }
+    out
 }
 
 fn all_assignments(n: usize, k: usize) -> Vec<Vec<usize>> {
@@ -352,8 +465,85 @@ fn main() {
                 }
             }
         }
+        // k-way forks (k = 3, 4) with merges of subsets of the branches (2 and 3 parents), chains hanging off
+        // forks and merges; delegates are interchangeable, so multisets of tips; every threshold; and the oid
+        // ORDER of the sufficiently supported tips as a dimension whenever they are not a chain.
+        let fork_quick: &[&str] = &[
+            "r,0,0,0,1+2",
+            "r,0,0,0,1+2+3",
+            "r,0,0,0,1+2,2+3",
+            "r,0,0,0,1+2,3",
+            "r,0,0,0,0,1+2",
+            "r,0,0,0,0,1+2,3+4",
+        ];
+        let fork_thorough: &[&str] = &[
+            "r,0,0,0,1+2",
+            "r,0,0,0,1+2+3",
+            "r,0,0,0,1+2,2+3",
+            "r,0,0,0,1+2,3",
+            "r,0,0,0,1+2,4",
+            "r,0,0,0,1+2,1+2+3",
+            "r,0,0,0,1,2,4+5",
+            "r,0,0,0,0,1+2",
+            "r,0,0,0,0,1+2+3",
+            "r,0,0,0,0,1+2,3+4",
+            "r,0,0,0,0,1+2,2+3",
+            "r,0,0,0,0,1+2,2+3,3+4",
+            "r,0,0,0,0,1+2+3,2+3+4",
+            "r,0,0,0,0,1+2,3,5+6",
+        ];
+        let mut base_rng = ctx.rng();
+        let mut prng = base_rng.fork();
+        for shape_txt in if ctx.quick() { fork_quick } else { fork_thorough } {
+            let Some(sh) = shape(shape_txt) else { continue };
+            let n = sh.parents.len();
+            let lem = sh.lem.clone();
+            let k_max = if ctx.quick() { 4 } else if n <= 6 { 6 } else { 5 };
+            for k in 1..=k_max {
+                for a in all_assignments(n, k) {
+                    if a.windows(2).any(|w| w[0] > w[1]) {
+                        continue;
+                    }
+                    let tipset: BTreeSet<usize> = a.iter().copied().collect();
+                    for t in 1..=k {
+                        let supported: Vec<usize> =
+                            tipset.iter().copied().filter(|c| a.iter().filter(|d| lem[*c][**d]).count() >= t).collect();
+                        let nonchain = supported.iter().any(|x| supported.iter().any(|y| !lem[*x][*y] && !lem[*y][*x]));
+                        let salts: Vec<String> = if nonchain {
+                            let perms: Vec<Vec<usize>> = if supported.len() <= 4 {
+                                permutations(&supported)
+                            } else {
+                                (0..24)
+                                    .map(|_| {
+                                        let mut p = supported.clone();
+                                        for i in (1..p.len()).rev() {
+                                            p.swap(i, prng.below(i as u64 + 1) as usize);
+                                        }
+                                        p
+                                    })
+                                    .collect()
+                            };
+                            perms.iter().map(|p| format!("o{}", p.iter().map(|c| c.to_string()).collect::<Vec<_>>().join("<"))).collect()
+                        } else {
+                            vec!["0".to_string(), "1".to_string()]
+                        };
+                        for salt in salts {
+                            count += 1;
+                            let mode = if count % 60 == 0 { "f" } else { "v" };
+                            let tips = a.iter().map(|c| c.to_string()).collect::<Vec<_>>().join(",");
+                            let line = normalize(&format!("{mode} {shape_txt} {salt} ? ? ? {tips} {t}"));
+                            let mut o = run_case(&line);
+                            if nonchain {
+                                o = o.tag(format!("order-enumerated-{}-supported", supported.len().min(5)));
+                            }
+                            ctx.record(&line, o);
+                        }
+                    }
+                }
+            }
+        }
         // random graphs, delegates without a tip, thresholds 0..k+1
-        let mut rng = ctx.rng();
+        let mut rng = base_rng;
         for _ in 0..ctx.size(1_500, 8_000) {
             let n = rng.range(1, 8) as usize;
             let mut rows = vec!["r".to_string()];
@@ -382,7 +572,9 @@ fn main() {
     ctx.finish(
         "exhaustive: every assignment of 1..3 delegates (every sorted assignment of 4..5) to the commits of fixed small DAG shapes \
          (linear, fork, diamond, two branches + merge, two roots, criss-cross, 3-way fork, the repo's own test graph) x every threshold 1..k \
-         x several oid orders (salts); plus random DAGs (<= 8 commits, merges, several roots) with delegates lacking a tip and thresholds 0..k+1; \
+         x several oid orders (salts); every multiset of 1..4 (thorough 5..6) tips on 3- and 4-way forks with merges of subsets of the branches \
+         (2 and 3 parents) and chains x every threshold x EVERY relative oid order of the sufficiently supported tips when they are not a chain \
+         (2/6/24 orders, 24 sampled beyond four tips; salts searched so that the real oids sort that way); plus random DAGs (<= 8 commits, merges, several roots) with delegates lacking a tip and thresholds 0..k+1; \
          ancestry facts computed by the real libgit2 per graph; non-trivial = at least two distinct tips; distinct by input text",
         false,
     );
